@@ -21,7 +21,13 @@ git diff -- src > .seed_eval_patch.diff; git apply -R .seed_eval_patch.diff
 g++ $flags demo.cpp -o demo_without 2>&1 | grep -E "error" | head -3
 ASAN_OPTIONS=detect_leaks=0 ./demo_without > demo_without.log 2>&1; echo "exit=$?"; tail -2 demo_without.log | cut -c1-200
 git apply .seed_eval_patch.diff; rm -f .seed_eval_patch.diff
+# the checks run against the CURRENT /repo HEAD plus the patch (the scratch worktree may be based on an older HEAD)
+wt=/tmp/evalwt_$pid
+git -C /repo worktree remove --force $wt > /dev/null 2>&1
+git -C /repo worktree add -q $wt HEAD
+if ! git -C $wt apply "$dir/patch.diff"; then echo "PATCH DOES NOT APPLY to the current HEAD"; fi
 for c in $checks; do
-  echo "== verif check $c against the changed tree"
-  (cd /verif && VERIF_REPO=$dir python3 verif.py check $c 2>&1 | grep -E "^VIOLATION|signature|^C[0-9]+ quick|INTERNAL|KNOWN" | cut -c1-260 | head -12)
+  echo "== verif check $c against current HEAD + patch"
+  (cd /verif && VERIF_REPO=$wt python3 verif.py check $c 2>&1 | grep -E "^VIOLATION|signature|^C[0-9]+ quick|INTERNAL|KNOWN" | cut -c1-260 | head -12)
 done
+git -C /repo worktree remove --force $wt
